@@ -27,7 +27,7 @@ func (g *Gen) faultScript(p *Plan, mix FaultMix, horizon int) {
 	n := g.R.Range(1, mix.Max)
 	var kinds []string
 	if mix.Cluster {
-		kinds = append(kinds, "move", "split", "merge", "opening", "metamove", "move")
+		kinds = append(kinds, "move", "split", "merge", "opening", "metamove", "move", "metahole")
 	}
 	if mix.Classes {
 		kinds = append(kinds, "retryable", "notserving", "fatal", "logclosed", "retryable")
@@ -56,6 +56,12 @@ func (g *Gen) faultScript(p *Plan, mix FaultMix, horizon int) {
 			f.Act, f.Key = "split", g.KeyNear(ts.Splits, 3)
 		case "merge":
 			f.Act = "merge"
+		case "metahole":
+			// hbase:meta has no row for one region for a while
+			f.Act = "metahole"
+			if g.R.Chance(0.7) {
+				p.Faults = append(p.Faults, &Fault{On: "ms", N: g.R.Range(100, 30000), Act: "metaunhide"})
+			}
 		case "opening":
 			f.Act = "opening"
 			p.Faults = append(p.Faults, &Fault{On: on, N: at + g.R.Range(1, 10), Act: "openall"})
